@@ -250,4 +250,216 @@ theorem readObj_spec (W : World) (d : DocSpec) (caching : Bool) (c : Caches) (n 
         refine ⟨?_, ⟨ho, hp, hf⟩, rfl⟩
         simp only [freshObj, hn]
 
+theorem readMany_spec (W : World) (d : DocSpec) (caching : Bool) : ∀ (ns : List Nat) (c : Caches),
+    CachesOk W d c →
+    (readMany d caching c ns).1 = ns.map (freshObj d) ∧ CachesOk W d (readMany d caching c ns).2 ∧
+    (readMany d caching c ns).2.fonts = c.fonts
+  | [], c, h => ⟨rfl, h, rfl⟩
+  | n :: ns, c, h => by
+    obtain ⟨h1, h2, h3⟩ := readObj_spec W d caching c n h
+    obtain ⟨i1, i2, i3⟩ := readMany_spec W d caching ns (readObj d caching c n).2 h2
+    simp only [readMany, List.map_cons]
+    exact ⟨by rw [h1, i1], i2, by rw [i3, h3]⟩
+
+theorem freshFont_direct (W : World) (d : DocSpec) (spec : FontSpec) :
+    freshFont W d (.direct spec) = some (fontPure W spec (spec.reads.map (freshObj d))) := by
+  simp [freshFont, fontOf_eq]
+
+theorem getFont_spec (W : World) (d : DocSpec) (caching : Bool) (c : Caches) (t : Tables) (r : FontRef)
+    (hc : CachesOk W d c) (ht : TablesOk W t) :
+    (getFont W d caching c t r).1 = freshFont W d r ∧ CachesOk W d (getFont W d caching c t r).2.1 ∧
+    TablesOk W (getFont W d caching c t r).2.2 := by
+  cases r with
+  | direct spec =>
+    obtain ⟨h1, h2, _⟩ := readMany_spec W d caching spec.reads c hc
+    obtain ⟨b1, b2⟩ := buildFont_spec W t spec (readMany d caching c spec.reads).1 ht
+    simp only [getFont]
+    exact ⟨by rw [b1, h1, freshFont_direct], h2, b2⟩
+  | byId n =>
+    obtain ⟨r1, r2, r3⟩ := readObj_spec W d caching c n hc
+    simp only [getFont]
+    split
+    · next f hf =>
+      obtain ⟨spec, hs, he⟩ := r2.2.2 n f (alookup_mem hf)
+      refine ⟨?_, r2, ht⟩
+      simp [freshFont, hs, fontOf_eq, he]
+    · split
+      · next hs => exact ⟨by simp [freshFont, hs], r2, ht⟩
+      · next spec hs =>
+        obtain ⟨m1, m2, m3⟩ := readMany_spec W d caching spec.reads (readObj d caching c n).2 r2
+        obtain ⟨b1, b2⟩ := buildFont_spec W t spec
+          ((readObj d caching c n).1 :: (readMany d caching (readObj d caching c n).2 spec.reads).1) ht
+        have hval : (buildFont W t spec
+            ((readObj d caching c n).1 :: (readMany d caching (readObj d caching c n).2 spec.reads).1)).1 =
+            fontPure W spec (freshObj d n :: spec.reads.map (freshObj d)) := by rw [b1, r1, m1]
+        refine ⟨?_, ?_, b2⟩
+        · simp only [freshFont, hs, fontOf_eq]; rw [hval]
+        · cases caching
+          · exact m2
+          · refine ⟨m2.1, m2.2.1, ?_⟩
+            intro k f hm
+            rcases List.mem_cons.mp hm with hm | hm
+            · cases hm; exact ⟨spec, hs, hval⟩
+            · exact m2.2.2 k f hm
+
+theorem getFonts_spec (W : World) (d : DocSpec) (caching : Bool) : ∀ (rs : List FontRef) (c : Caches) (t : Tables),
+    CachesOk W d c → TablesOk W t →
+    (getFonts W d caching c t rs).1 = rs.map (freshFont W d) ∧ CachesOk W d (getFonts W d caching c t rs).2.1 ∧
+    TablesOk W (getFonts W d caching c t rs).2.2
+  | [], c, t, hc, ht => ⟨rfl, hc, ht⟩
+  | r :: rs, c, t, hc, ht => by
+    obtain ⟨h1, h2, h3⟩ := getFont_spec W d caching c t r hc ht
+    obtain ⟨i1, i2, i3⟩ := getFonts_spec W d caching rs _ _ h2 h3
+    simp only [getFonts, List.map_cons]
+    exact ⟨by rw [h1, i1], i2, i3⟩
+
+/-- the core lemma: interpreting a page through valid caches and tables yields exactly the page
+computed from fresh values, and leaves valid caches and tables behind -/
+theorem processPage_spec (W : World) (d : DocSpec) (caching : Bool) (c : Caches) (t : Tables) (pg : PageSpec)
+    (hc : CachesOk W d c) (ht : TablesOk W t) :
+    (processPage W d caching c t pg).1 = freshPage W d pg ∧
+    CachesOk W d (processPage W d caching c t pg).2.1 ∧ TablesOk W (processPage W d caching c t pg).2.2 := by
+  obtain ⟨w1, w2, _⟩ := readMany_spec W d caching pg.walk c hc
+  obtain ⟨f1, f2, f3⟩ := getFonts_spec W d caching pg.fonts _ t w2 ht
+  obtain ⟨r1, r2, _⟩ := readMany_spec W d caching pg.reads _ f2
+  simp only [processPage, freshPage]
+  refine ⟨?_, r2, f3⟩
+  rw [w1, r1, f1, List.map_append]
+
+theorem walkRange_ok (W : World) (d : DocSpec) (caching : Bool) (c : Caches) (pos k : Nat)
+    (hc : CachesOk W d c) : CachesOk W d (walkRange d caching c pos k) := by
+  unfold walkRange
+  generalize ((d.pages.drop pos).take (k - pos)) = l
+  induction l generalizing c with
+  | nil => exact hc
+  | cons pg rest ih =>
+    simp only [List.foldl_cons]
+    exact ih _ (readMany_spec W d caching pg.walk c hc).2.1
+
+/-! ### handles and states -/
+
+def HandleOk (W : World) (h : Handle) : Prop :=
+  CachesOk W h.doc h.c ∧ ∀ k, k ∈ h.todo → k < h.doc.pages.length
+
+/-- what `next()` must yield on a handle, in terms of fresh values only -/
+def nextSpec (W : World) (h : Handle) : Out :=
+  match h.todo with
+  | [] => .done
+  | k :: _ =>
+    match h.doc.pages[k]? with
+    | none => .done
+    | some pg => .page (freshPage W h.doc pg)
+
+theorem advance_spec (W : World) (h : Handle) (t : Tables) (hh : HandleOk W h) (ht : TablesOk W t) :
+    (advance W h t).1 = nextSpec W h ∧ HandleOk W (advance W h t).2.1 ∧ TablesOk W (advance W h t).2.2 ∧
+    (advance W h t).2.1.doc = h.doc ∧ (advance W h t).2.1.caching = h.caching ∧
+    (advance W h t).2.1.todo = h.todo.tail := by
+  obtain ⟨hc, hk⟩ := hh
+  cases htodo : h.todo with
+  | nil =>
+    simp only [advance, nextSpec, htodo]
+    refine ⟨trivial, ⟨walkRange_ok W _ _ _ _ _ hc, ?_⟩, ht, trivial, trivial, ?_⟩
+    · intro k hm; simp [htodo] at hm
+    · simp [htodo]
+  | cons k rest =>
+    have hlt := hk k (by simp [htodo])
+    cases hpg : h.doc.pages[k]? with
+    | none =>
+      simp [List.getElem?_eq_none_iff] at hpg
+      omega
+    | some pg =>
+      have hw := walkRange_ok W h.doc h.caching h.c h.pos k hc
+      obtain ⟨p1, p2, p3⟩ := processPage_spec W h.doc h.caching _ t pg hw ht
+      simp only [advance, nextSpec, htodo, hpg]
+      refine ⟨by rw [p1], ⟨p2, ?_⟩, p3, trivial, trivial, by simp⟩
+      intro k' hm
+      exact hk k' (by simp [htodo]; exact Or.inr hm)
+
+/-- the pages a list of page numbers denotes, from fresh values only -/
+def pagesOf (W : World) (d : DocSpec) (ks : List Nat) : List PageOut :=
+  ks.filterMap (fun k => (d.pages[k]?).map (freshPage W d))
+
+theorem drain_spec (W : World) : ∀ (fuel : Nat) (h : Handle) (t : Tables),
+    HandleOk W h → TablesOk W t → h.todo.length < fuel →
+    (drain W fuel h t).1 = pagesOf W h.doc h.todo ∧ TablesOk W (drain W fuel h t).2.2
+  | 0, h, t, _, _, hl => by omega
+  | fuel + 1, h, t, hh, ht, hl => by
+    obtain ⟨a1, a2, a3, a4, _, a6⟩ := advance_spec W h t hh ht
+    cases htodo : h.todo with
+    | nil =>
+      have : (advance W h t).1 = .done := by rw [a1]; simp [nextSpec, htodo]
+      simp only [drain, this, pagesOf, List.filterMap_nil]
+      exact ⟨trivial, a3⟩
+    | cons k rest =>
+      have hlt := hh.2 k (by simp [htodo])
+      have hpg : h.doc.pages[k]? = some (h.doc.pages[k]'hlt) := List.getElem?_eq_getElem hlt
+      have hout : (advance W h t).1 = .page (freshPage W h.doc (h.doc.pages[k]'hlt)) := by
+        rw [a1]; simp [nextSpec, htodo, hpg]
+      have hrest : (advance W h t).2.1.todo = rest := by rw [a6, htodo]; rfl
+      have ih := drain_spec W fuel (advance W h t).2.1 (advance W h t).2.2 a2 a3
+        (by rw [hrest]; simp [htodo] at hl; omega)
+      simp only [drain, hout]
+      refine ⟨?_, ih.2⟩
+      rw [ih.1, a4, hrest]
+      simp [pagesOf, hpg]
+
+theorem mem_selPages {n k : Nat} {sel : List Nat} (h : k ∈ selPages n sel) : k < n := by
+  unfold selPages at h
+  split at h
+  · exact List.mem_range.mp h
+  · exact List.mem_range.mp (List.mem_filter.mp h).1
+
+theorem openHandle_ok (W : World) (d : DocSpec) (caching : Bool) (sel : List Nat) :
+    HandleOk W (openHandle d caching sel) :=
+  ⟨(readMany_spec W d caching d.openReads Caches.empty (CachesOk.empty W d)).2.1,
+   fun _ hk => mem_selPages hk⟩
+
+theorem extract_spec (W : World) (t : Tables) (d : DocSpec) (caching : Bool) (sel : List Nat)
+    (ht : TablesOk W t) :
+    (extract W t d caching sel).1 = pagesSpec W d sel ∧ TablesOk W (extract W t d caching sel).2 := by
+  have := drain_spec W ((openHandle d caching sel).todo.length + 1) (openHandle d caching sel) t
+    (openHandle_ok W d caching sel) ht (by omega)
+  simp only [extract]
+  exact ⟨by rw [this.1]; rfl, this.2⟩
+
+/-- the invariant of the whole process -/
+def StateOk (W : World) (s : State) : Prop :=
+  TablesOk W s.tables ∧ ∀ hid h, (hid, h) ∈ s.handles → HandleOk W h
+
+theorem StateOk.init (W : World) : StateOk W (init W) :=
+  ⟨TablesOk.init W, by intro hid h hm; simp [Process.init] at hm⟩
+
+theorem step_ok (W : World) (s : State) (op : Op) (hs : StateOk W s) : StateOk W (step W s op).1 := by
+  obtain ⟨ht, hh⟩ := hs
+  cases op with
+  | «open» hid d caching sel =>
+    refine ⟨ht, ?_⟩
+    intro k h hm
+    rcases mem_aset hm with hm | hm
+    · cases hm; exact openHandle_ok W d caching sel
+    · exact hh k h hm
+  | next hid =>
+    simp only [step]
+    split
+    · exact ⟨ht, hh⟩
+    · next h hl =>
+      obtain ⟨_, a2, a3, _⟩ := advance_spec W h s.tables (hh hid h (alookup_mem hl)) ht
+      refine ⟨a3, ?_⟩
+      intro k h' hm
+      rcases mem_aset hm with hm | hm
+      · cases hm; exact a2
+      · exact hh k h' hm
+  | close hid =>
+    refine ⟨ht, ?_⟩
+    intro k h hm
+    exact hh k h (List.mem_filter.mp hm).1
+  | extract d caching sel =>
+    exact ⟨(extract_spec W s.tables d caching sel ht).2, hh⟩
+  | parseCMap name ext =>
+    exact ⟨(getCMap_spec W s.tables name ht).2, hh⟩
+
+theorem run_ok (W : World) : ∀ (ops : List Op) (s : State), StateOk W s → StateOk W (run W s ops)
+  | [], _, h => h
+  | op :: ops, s, h => run_ok W ops _ (step_ok W s op h)
+
 end PdfVerif.Process
